@@ -472,8 +472,84 @@ def mtime_zones(ctx):
                      {"zone": z, "tzname": rep["tzname"], **b})
 
 
+def mounted_histories(ctx):
+    """read returns what was LAST written to the mounted location, over histories: an upload that fails and is retried with the same
+    value; two store objects on one location used alternately; the same value written again after another one; a store object reused
+    after the remote object was replaced behind its back"""
+    import uberjob.stores as st
+    from uberjob.stores._mounted_store import MountedStore
+
+    class Remote:
+        def __init__(self):
+            self.blob, self.mtime, self.fail_next = None, None, 0
+
+    class Mounted(MountedStore):
+        def __init__(self, remote, create):
+            super().__init__(create)
+            self.remote = remote
+
+        def copy_from_local(self, local_path):
+            if self.remote.fail_next:
+                self.remote.fail_next -= 1
+                raise ConnectionError("upload failed")
+            with open(local_path, "rb") as f:
+                self.remote.blob = f.read()
+            self.remote.mtime = dt.datetime.now()
+
+        def copy_to_local(self, local_path):
+            with open(local_path, "wb") as f:
+                f.write(self.remote.blob)
+
+        def get_modified_time(self):
+            return self.remote.mtime
+    kinds = {"json": (st.JsonFileStore, [{"a": 1}, {"b": [2]}]), "pickle": (st.PickleFileStore, [(1, 2), {"k": b"v"}]), "text": (st.TextFileStore, ["one", "two"]),
+             "binary": (st.BinaryFileStore, [b"\x00one", b"two"])}
+    for kind, (cls, (va, vb)) in kinds.items():
+        for history in ("failed-upload-then-retry", "two-handles-alternating", "a-b-a-one-handle", "replaced-behind-its-back"):
+            remote = Remote()
+            s1, s2 = Mounted(remote, cls), Mounted(remote, cls)
+            steps, want = [], None
+            try:
+                if history == "failed-upload-then-retry":
+                    s1.write(vb)
+                    remote.fail_next = 1
+                    try:
+                        s1.write(va)
+                        steps.append("the failing upload was not reported")
+                    except ConnectionError:
+                        pass
+                    s1.write(va)        # the retry
+                    want = va
+                elif history == "two-handles-alternating":
+                    s1.write(va)
+                    s2.write(vb)
+                    s1.write(va)
+                    want = va
+                elif history == "a-b-a-one-handle":
+                    s1.write(va)
+                    s1.write(vb)
+                    s1.write(va)
+                    want = va
+                else:
+                    s1.write(va)
+                    remote.blob, remote.mtime = None, None          # the remote object is deleted by someone else
+                    s2.write(vb)
+                    s1.write(va)
+                    want = va
+                got = s1.read()
+                got2 = s2.read()
+            except Exception as e:      # noqa
+                steps.append("raised %s: %s" % (type(e).__name__, e))
+                got = got2 = None
+            ctx.case(("mounted-history", kind, history))
+            if steps or not same(got, want) or not same(got2, want) or remote.mtime is None:
+                ctx.fail("mounted:history", "%s store on a mounted location, history %s: read returns %r (through the other store object %r), last written %r%s"
+                         % (kind, history, got, got2, want, "; " + "; ".join(steps) if steps else ""), {"store": kind, "history": history})
+
+
 def run(ctx):
     core.use_repo()
+    mounted_histories(ctx)
     mtime_zones(ctx)
     extra_scenarios(ctx)
     import uberjob.stores as st
